@@ -526,6 +526,9 @@ func (s *Sim) absorb() {
 			// race mode: hold some events back so that goroutines which would normally run in
 			// different quiescence windows (and therefore be ordered by synctest.Wait) overlap
 			ev.hold = s.steps + 1 + s.Sched.Draw(40)
+			if ev.Class == "start" && s.Sched.Chance(1, 2) {
+				ev.hold = s.steps + 1 + s.Sched.Draw(400) // spawns are where unsynchronised work begins
+			}
 		}
 	}
 }
@@ -599,7 +602,26 @@ func (s *Sim) Step(maxSleep time.Duration) StepResult {
 		s.choicePoints++
 	}
 	idx := s.Sched.Draw(len(en))
-	s.fire(en[idx], len(en))
+	first := en[idx]
+	s.fire(first, len(en))
+	if s.Parallel > 1 && first.Class == "start" {
+		// race mode: a goroutine starts now; release goroutines whose start was being held back
+		// together with it, so that an old and a new spawn run in the same window
+		s.mu.Lock()
+		var held []*Event
+		for _, ev := range s.events {
+			if ev.Class == "start" && ev.hold > s.steps {
+				held = append(held, ev)
+			}
+		}
+		s.mu.Unlock()
+		sort.Slice(held, func(i, j int) bool { return held[i].Key < held[j].Key })
+		for _, ev := range held {
+			if s.Sched.Chance(1, 2) {
+				s.fire(ev, len(en))
+			}
+		}
+	}
 	if s.Parallel > 1 {
 		// parallel-release mode: let up to Parallel-1 further enabled events happen before
 		// the next quiescence, so that the woken goroutines are unordered with respect to
